@@ -45,6 +45,7 @@ type want struct {
 	RootMT     string
 	RootBody   []byte
 	Tag        string            // ref.name annotation required on the index entry
+	NoIndexTag bool              // the source reference had no tag: the index annotation is not judged (Tag still applies to RepoTags)
 	Single     bool              // root is a single image (manifest.json required)
 	SrcClosure map[string][]byte // closure computed from raw source storage
 }
@@ -105,7 +106,7 @@ func auditArchive(es []tarEntry, w want, underArtifactEntry func(parent string) 
 	if root == nil {
 		return evid.V("archive-index-lacks-exported-digest", "index.json does not name the exported digest %s: %s", w.RootDigest, ib)
 	}
-	if got := root.Annotations[annRefName]; got != w.Tag {
+	if got := root.Annotations[annRefName]; got != w.Tag && !w.NoIndexTag {
 		return evid.V("archive-index-tag-wrong", "index.json entry of %s carries ref.name %q, the export tag is %q", w.RootDigest, got, w.Tag)
 	}
 	if root.MediaType != w.RootMT {
